@@ -8,6 +8,11 @@ From EV Require Import Base.Bytes Base.Codec Model.Tx Model.Ids Model.Json Proof
 Import ListNotations.
 Open Scope N_scope.
 
+(* The three 32-byte constants of the derivation are those of src/issuance.rs now (Gen/Tables.v is regenerated on every run). *)
+From EV Require Gen.Tables Proofs.TablesTie.
+Theorem C11_constants_from_source : map b2n zero32 = Tables.c11_zero32 /\ map b2n one32 = Tables.c11_one32 /\ map b2n two32 = Tables.c11_two32.
+Proof. exact TablesTie.tie_issuance_consts. Qed.
+
 Section C11.
 Variable H : bytes -> bytes.
 Variable cmp : bytes -> bytes -> bytes.
